@@ -4,4 +4,4 @@ Require Import ExtrOcamlBasic.
 Extraction Language OCaml.
 Extraction "model.ml"
   N.add N.mul N.div_eucl
-  sess_new sess_send sess_recv next_sess_id next_exch_id honest exch_conflict mem.
+  sess_new sess_at sess_send sess_recv next_sess_id next_exch_id honest exch_conflict mem.
